@@ -11,14 +11,18 @@ import (
 	"encoding/json"
 	"fmt"
 	"math/rand/v2"
+	"net"
 	"os"
 	"strconv"
 	"strings"
 	"sync"
+	"sync/atomic"
 	"time"
 
 	"github.com/miekg/dns"
 	"github.com/semihalev/sdns/config"
+	mcache "github.com/semihalev/sdns/middleware/cache"
+	"github.com/semihalev/sdns/server"
 	"github.com/semihalev/sdns/zzverif/authsim"
 	"github.com/semihalev/sdns/zzverif/vlib"
 	zm "github.com/semihalev/sdns/zzverif/zonemodel"
@@ -51,6 +55,17 @@ type runner struct {
 	r      *vlib.Run
 	client string
 	id     uint16
+	// how the cache's wire ladder served the last wire-born question (deltas
+	// of the process-global counters around the call; one question at a time)
+	lastWire wireOutcome
+}
+
+// wireOutcome says which byte path of the answer cache produced a reply.
+type wireOutcome struct {
+	strict bool // the packet took the wire-born strict branch of the server
+	chase  bool // composed by the cache-contained alias chase (serveChaseHit)
+	flat   bool // byte copy of one stored entry
+	cut    bool // RFC 8020 cut served from bytes
 }
 
 func main() {
@@ -182,6 +197,45 @@ func main() {
 	// signed zone below an insecure cut, answered directly by an ancestor's server
 	r.Require("island_cut/direct_answer_by_ancestor_server", 12)
 	r.Require("island_cut/ds_fetched_via_insecure_parent", 12)
+	// later clients through the wire-born entry; alias chains whose hops
+	// differ in security composed from the caches on both entries (chase.go).
+	// The minimums are about half of what the directed worlds chase-* deliver
+	// on their own, at any seed.
+	r.Require("wire_entry_strict_path_taken", 2000)
+	r.Require("wire_served/stored_bytes", 400)
+	r.Require("wire_alias_chase/served", 300)
+	for mix, min := range map[string]int64{"secure": 80, "secure>insecure": 80, "insecure>secure": 60, "secure>insecure>secure": 20, "insecure>secure>insecure": 6} {
+		r.Require("wire_alias_chase/served/"+mix, min)
+		r.Require("decoded_alias_from_cache/served/"+mix, min/2)
+	}
+	r.Require("wire_alias_chase/ad_kept/secure", 60)
+	r.Require("wire_alias_chase/ad_withheld/secure>insecure", 60)
+	r.Require("wire_alias_chase/ad_withheld/insecure>secure", 40)
+	r.Require("wire_alias_chase/served_flags/do", 100)
+	r.Require("wire_alias_chase/served_flags/do+ad", 60)
+	r.Require("wire_alias_chase/served_flags/ad-only", 20)
+	r.Require("wire_alias_chase/served_flags/cd", 30)
+	r.Require("chase_history/later_replies", 600)
+	// a later hop down while the alias is first asked, then back
+	r.Require("alias_hop_outage/histories", 24)
+	r.Require("alias_hop_outage/alias_cached_without_target/secure>insecure", 6)
+	r.Require("alias_hop_outage/alias_cached_without_target/secure", 3)
+	r.Require("alias_hop_outage/wire_chase_composed_after_recovery/secure>insecure", 20)
+	r.Require("alias_hop_outage/wire_chase_composed_after_recovery/secure", 10)
+	r.Require("alias_hop_outage/wire_chase_composed_after_recovery/insecure>secure", 10)
+	// parent-owned denial proofs next to the child's genuine SOA, sent by a
+	// server that is authoritative for parent and child (denial.go; the
+	// directed worlds shared-* deliver about twice these on their own)
+	r.Require("directed_cases_observed/shared", 50)
+	for _, rc := range []string{"nxdomain", "nodata"} {
+		r.Require("parent_owned_denial_delivered/shared-server/"+rc, 20)
+		for sub, min := range map[string]int64{"nsec": 10, "nsec3": 10, "unsigned": 15, "parent-signed": 5} {
+			r.Require("parent_owned_denial_delivered/shared-server/"+rc+"/"+sub, min)
+		}
+	}
+	r.Require("parent_owned_denial_delivered/mixed_with_genuine_records", 10)
+	r.Require("parent_owned_denial_delivered/genuine_proof_replaced", 30)
+	r.Require("parent_owned_denial_shared_server_reply_servfail", 40)
 	r.Finish(rule)
 }
 
@@ -192,11 +246,15 @@ func sweep() {
 	authsim.SweepTemp()
 }
 
-const rule = "generated hierarchies plus the fixed directed worlds of directed.go (RRSIG-window-only forgeries per response role, mixed / unusable-only DS RRsets in every order, trust anchors lost and restored mid-history, signed zone below an insecure cut answered by an ancestor server on a cold resolver); distinct_nontrivial = distinct (level signing pattern, tamper kind, zone:response-role) triples whose forged response was actually sent to the resolver by a scripted server during the case; evaluations = client-visible replies judged"
+const rule = "generated hierarchies plus the fixed directed worlds of directed.go (RRSIG-window-only forgeries per response role, mixed / unusable-only DS RRsets in every order, trust anchors lost and restored mid-history, signed zone below an insecure cut answered by an ancestor server on a cold resolver, alias chains with hops of differing security asked through the decoded and the wire-born entry in both orders and after a hop outage, parent-owned denial proofs on servers shared by parent and child); distinct_nontrivial = distinct (level signing pattern, tamper kind, zone:response-role) triples whose forged response was actually sent to the resolver by a scripted server during the case; evaluations = client-visible replies judged"
 
 func (run *runner) nextID() uint16 { run.id++; return run.id }
 
 func (run *runner) ask(st *authsim.RStack, q QuerySpec) *dns.Msg {
+	run.lastWire = wireOutcome{}
+	if strings.HasPrefix(q.Entry, "wire") {
+		return run.askWire(st, q)
+	}
 	proto := q.Proto
 	if proto == "" {
 		proto = "tcp"
@@ -209,6 +267,67 @@ func (run *runner) ask(st *authsim.RStack, q QuerySpec) *dns.Msg {
 		run.r.Count("multiple_replies", 1)
 	}
 	return rs[0]
+}
+
+// askWire enters through Server.ServeRaw with a strict job: the wire-born
+// entry the owned UDP / TCP engines use, which lets the answer cache serve a
+// hit from stored bytes (flat copy, or the composed alias chase) without ever
+// decoding the request. Entry "wire" is the TCP flavour (nothing truncated);
+// "wire-udp" the UDP flavour — a TC=1 reply there is followed by the TCP
+// retry a real client makes, and that reply is the one judged.
+func (run *runner) askWire(st *authsim.RStack, q QuerySpec) *dns.Msg {
+	r := run.r
+	pkt, err := q.msg(run.nextID()).Pack()
+	if err != nil {
+		r.Count("wire_entry_unpackable_query", 1)
+		return nil
+	}
+	host, port, _ := net.SplitHostPort(run.client)
+	pn, _ := strconv.Atoi(port)
+	var remote net.Addr = &net.TCPAddr{IP: net.ParseIP(host), Port: pn}
+	if q.Entry == "wire-udp" {
+		remote = &net.UDPAddr{IP: net.ParseIP(host), Port: pn}
+	}
+	before := mcache.VerifC05WireCounters()
+	job := server.VerifNewStrictJob(remote)
+	st.Server.ServeRaw(job, pkt, time.Now())
+	after := mcache.VerifC05WireCounters()
+	r.Count("wire_entry_queries", 1)
+	run.lastWire = wireOutcome{
+		strict: job.VerifUsedStrict(),
+		chase:  after["chase_served"] > before["chase_served"],
+		flat:   after["served"] > before["served"],
+		cut:    after["cut_served"] > before["cut_served"],
+	}
+	if run.lastWire.strict {
+		r.Count("wire_entry_strict_path_taken", 1)
+	}
+	switch {
+	case run.lastWire.chase:
+		r.Count("wire_served/alias_chase_composed", 1)
+	case run.lastWire.flat:
+		r.Count("wire_served/stored_bytes", 1)
+	case run.lastWire.cut:
+		r.Count("wire_served/nxdomain_cut", 1)
+	}
+	if len(job.Writes) > 1 {
+		r.Count("multiple_replies", 1)
+	}
+	if len(job.Writes) == 0 {
+		return nil
+	}
+	m := new(dns.Msg)
+	if err := m.Unpack(job.Writes[0]); err != nil {
+		r.Count("wire_entry_unparsable_reply", 1)
+		return nil
+	}
+	if m.Truncated && q.Entry == "wire-udp" {
+		r.Count("wire_udp_truncated_retried_over_tcp", 1)
+		tq := q
+		tq.Entry = "wire"
+		return run.askWire(st, tq)
+	}
+	return m
 }
 
 func (run *runner) newStack(w *world) *authsim.RStack {
@@ -280,6 +399,13 @@ func (run *runner) hierarchy(index, onlyCase int) {
 				return
 			}
 		}
+		if directedFamily(spec.Directed) == "chase" {
+			run.chaseHistory(w, index)
+			run.hopOutages(w, index)
+			if r.Violations() > 0 && onlyCase == -1 {
+				return
+			}
+		}
 	}
 	pattern := spec.Pattern()
 	r.DistinctIn("patterns", pattern)
@@ -294,10 +420,23 @@ func (run *runner) hierarchy(index, onlyCase int) {
 	w.installObserver()
 	defer run.flushObserver(w)
 	qs := w.queryKinds("c")
+	// which entry the first client of a question uses, and whether the later
+	// clients of the other entry are asked (always for alias chains that
+	// cross a zone boundary): a stream of its own, so that the draws of the
+	// existing phases are what they were
+	erng := r.RandN("entry", index)
 	for _, q := range qs {
 		e := w.expect(q)
+		wireFirst := erng.IntN(4) == 0
+		later := erng.IntN(3) == 0 || (aliasHops(e) >= 2 && crossesZones(e))
+		if wireFirst {
+			q.Entry = "wire"
+		}
 		from := w.u.Log.Len()
 		reply := run.ask(st, q)
+		if q.Entry != "" {
+			r.Count("control_first_reply_wire_born", 1)
+		}
 		j := judge(reply, judgeCtx{q: q, e: e, phase: "control"})
 		r.Eval(1)
 		run.report(j, CaseSpec{Hier: index, Case: -1, Query: &q, Phase: "control"}, w, reply, from)
@@ -341,6 +480,14 @@ func (run *runner) hierarchy(index, onlyCase int) {
 			ad := reply != nil && reply.AuthenticatedData
 			fmt.Fprintf(os.Stderr, "H%d %s control %-40s -> %s ad=%v ok=%v want=%s/%s mustFail=%v %s\n", index, pattern, q, j.Class, ad, ok, e.res.Final.Kind, e.res.Status, e.mustFail, j.Why)
 		}
+		// the same question asked by later clients through BOTH entries with
+		// DO / AD / CD permutations while everything is still cached
+		if ok && later {
+			for _, fq := range entryPermutations(q, !wireFirst) {
+				run.askJudge(w, st, index, fq, e, "control-entry-permutation")
+				r.Count("control_entry_permutations", 1)
+			}
+		}
 		// the same question again with other flag combinations: served from
 		// the caches this history filled.
 		if ok && rng.IntN(3) == 0 {
@@ -359,6 +506,18 @@ func (run *runner) hierarchy(index, onlyCase int) {
 		}
 	}
 	st.Close()
+	// fault sequence on the generated topology too: a later hop of a
+	// cross-zone alias chain is down when the alias is first asked (chase.go)
+	if spec.Directed == "" && !spec.NoAnchor && erng.IntN(3) == 0 {
+		for _, q := range chaseQuestions(w) {
+			e := w.expect(q)
+			if !controlOK[q.Kind] || !strings.HasSuffix(q.Kind, "-cname-x") || !crossesZones(e) {
+				continue
+			}
+			run.hopOutage(w, index, q, aliasHops(e)-1, erng.IntN(2) == 0)
+		}
+		w.installObserver()
+	}
 	if onlyCase == -1 {
 		return
 	}
@@ -547,7 +706,9 @@ func (run *runner) execute(w *world, hier, ci int, p plan, rng *rand.Rand) {
 	for _, s := range w.u.Servers() {
 		s.ClearScript(true)
 	}
-	mk := func(atParent bool, roles []string) authsim.TamperFunc {
+	// sharesParent: the scripted server is authoritative for the attacked
+	// zone's parent as well (no referral is crossed on the way to the zone)
+	mk := func(atParent bool, roles []string, sharesParent bool) authsim.TamperFunc {
 		return func(qm, honest *dns.Msg) *dns.Msg {
 			role := roleOf(qm, honest)
 			if !contains(roles, role) {
@@ -556,6 +717,19 @@ func (run *runner) execute(w *world, hier, ci int, p plan, rng *rand.Rand) {
 			if kind.Apply(ctx, qm, honest, role, atParent) {
 				ctx.applied.Add(1)
 				ctx.byRole[roleIdx(role)].Add(1)
+				if isParentDenialKind(kind.Name) {
+					nx := honest.Rcode == dns.RcodeNameError
+					switch {
+					case sharesParent && nx:
+						ctx.pdSharedNX.Add(1)
+					case sharesParent:
+						ctx.pdSharedND.Add(1)
+					case nx:
+						ctx.pdOtherNX.Add(1)
+					default:
+						ctx.pdOtherND.Add(1)
+					}
+				}
 			}
 			return honest
 		}
@@ -569,6 +743,7 @@ func (run *runner) execute(w *world, hier, ci int, p plan, rng *rand.Rand) {
 				break
 			}
 			apex, child := zone.Apex(), z.Apex()
+			sharesParent := !atParent && ctx.parent != nil && s.Hosts(ctx.parent.Apex())
 			s.AddRule(authsim.Rule{
 				Match: func(p *authsim.Packet) bool {
 					if p.Zone != apex || infra(p.QNameL) {
@@ -579,7 +754,7 @@ func (run *runner) execute(w *world, hier, ci int, p plan, rng *rand.Rand) {
 					}
 					return true
 				},
-				Action: authsim.Tamper(label, mk(atParent, roles)),
+				Action: authsim.Tamper(label, mk(atParent, roles, sharesParent)),
 			})
 			names = append(names, s.Name)
 		}
@@ -668,6 +843,39 @@ func (run *runner) execute(w *world, hier, ci int, p plan, rng *rand.Rand) {
 				r.Count("window_only_reply_servfail", 1)
 			}
 		}
+		if isParentDenialKind(kind.Name) {
+			// where and in which shape the parent-owned proofs were delivered
+			fam := "nsec"
+			if strings.Contains(kind.Name, "nsec3") {
+				fam = "nsec3"
+			}
+			for _, x := range []struct {
+				n    *atomic.Int64
+				name string
+			}{
+				{&ctx.pdSharedNX, "shared-server/nxdomain"}, {&ctx.pdSharedND, "shared-server/nodata"},
+				{&ctx.pdOtherNX, "own-server/nxdomain"}, {&ctx.pdOtherND, "own-server/nodata"},
+			} {
+				if x.n.Load() > 0 {
+					r.Count("parent_owned_denial_delivered/"+x.name, 1)
+					r.Count("parent_owned_denial_delivered/"+x.name+"/"+fam, 1)
+					if strings.HasSuffix(kind.Name, "-psigned") {
+						r.Count("parent_owned_denial_delivered/"+x.name+"/parent-signed", 1)
+					} else {
+						r.Count("parent_owned_denial_delivered/"+x.name+"/unsigned", 1)
+					}
+				}
+			}
+			if ctx.pdMixed.Load() > 0 {
+				r.Count("parent_owned_denial_delivered/mixed_with_genuine_records", 1)
+			}
+			if ctx.pdReplaced.Load() > 0 {
+				r.Count("parent_owned_denial_delivered/genuine_proof_replaced", 1)
+			}
+			if ctx.pdSharedNX.Load()+ctx.pdSharedND.Load() > 0 && j.Class == clsServfail {
+				r.Count("parent_owned_denial_shared_server_reply_servfail", 1)
+			}
+		}
 		if w.spec.Directed != "" {
 			r.Count("directed_cases_observed/"+directedFamily(w.spec.Directed), 1)
 			if j.Class == clsServfail {
@@ -709,8 +917,15 @@ func (run *runner) execute(w *world, hier, ci int, p plan, rng *rand.Rand) {
 	}
 
 	// ---- later replies of the same history -------------------------------
+	// later clients come through either entry: a wire-born one is served from
+	// the stored bytes (or the composed alias chase) of what the attack left
+	frng := r.RandN(fmt.Sprintf("fentry-%d", hier), ci)
 	for k := 0; k < 2; k++ {
 		fq := randFlags(rng, q)
+		if frng.IntN(2) == 0 {
+			fq.Entry = "wire"
+			r.Count("cached_followups_wire_born", 1)
+		}
 		cs.Followups = append(cs.Followups, fq)
 		from := w.u.Log.Len()
 		fr := run.ask(st, fq)
@@ -743,6 +958,10 @@ func (run *runner) execute(w *world, hier, ci int, p plan, rng *rand.Rand) {
 	{
 		cq := q
 		cq.EDNS, cq.DO, cq.CD = true, true, false
+		if frng.IntN(2) == 0 {
+			cq.Entry = "wire"
+			r.Count("cleared_replies_wire_born", 1)
+		}
 		from := w.u.Log.Len()
 		cr := run.ask(st, cq)
 		cj := judge(cr, judgeCtx{q: cq, e: e, phase: "cleared", kind: kind.Name, role: cs.Role})
